@@ -30,6 +30,7 @@ THEOREMS = [
     "Canopen.C14.export_returns",
     "Canopen.C14.export_import",
     "Canopen.C14.export_import_history",
+    "Canopen.C14.export_import_nodeid",
 ]
 FINGERPRINT = [
     "canopen.objectdictionary.eds:export_eds",
@@ -58,7 +59,8 @@ TRUSTED = [
 ]
 ASSUMPTIONS = [
     "dictionaries in the property's domain: indexes 0x1000..0xFFFF, unique names, value kinds agreeing with the "
-    "data type, limits on integer types only, bit rate a multiple of 1000, node id 1..127, texts without "
+    "data type, limits on integer types only, bit rate a multiple of 1000, node id 1..127 (0, 128, 255 are "
+    "generated and compared with the model, nothing is demanded of them), texts without "
     "leading/trailing blanks, ';' or line breaks, factor not equal to 1.0 when given (float equality is outside "
     "the model)",
     "the same node id is in force for the re-import as for the original dictionary",
@@ -320,6 +322,17 @@ def earlier_export(od):
             v.default, v.value = d, x
 
 
+def file_node_id(text, doctype):
+    """`I=`: the node id of the dictionary obtained by importing an exported DCF without an explicit node id: the
+    one the document carries"""
+    if doctype != "dcf":
+        return "I=-"
+    try:
+        return "I=" + E.show_opt(str, E.import_text(text, "x.dcf", None).node_id)
+    except Exception:
+        return "I=err"
+
+
 def round_trip(od, doctype, dest, nid, history=False):
     # the node id in force for the original dictionary is in force for the re-import
     if nid is None:
@@ -330,7 +343,7 @@ def round_trip(od, doctype, dest, nid, history=False):
     try:
         texts = export_all(od, doctype)
     except Exception:
-        return "ok X=1 " + head + " export-err"
+        return "ok X=1 I=- " + head + " export-err"
     same = len({strip_fileinfo(t) for t in texts.values()}) == 1
     text = texts[dest]
     try:
@@ -342,7 +355,7 @@ def round_trip(od, doctype, dest, nid, history=False):
         r = no_fileinfo(E.show_od(od2))
     except Exception:
         r = "err"
-    return f"ok X={1 if same else 0} {head} D={doc} R=({r})"
+    return f"ok X={1 if same else 0} {file_node_id(text, doctype)} {head} D={doc} R=({r})"
 
 
 def hist_steps(a):
@@ -385,7 +398,7 @@ def run_history(a):
                         canopen.export_od(od, None, doc_type=doctype)
                     text = buf.getvalue()
             except Exception:
-                outs.append(head + " export-err")
+                outs.append("I=- " + head + " export-err")
                 continue
             try:
                 doc = E.enc_doc(canon_doc(E.parse_text(text)))
@@ -396,7 +409,7 @@ def run_history(a):
                 r = no_fileinfo(E.show_od(od2))
             except Exception:
                 r = "err"
-            outs.append(f"{head} D={doc} R=({r})")
+            outs.append(f"{file_node_id(text, doctype)} {head} D={doc} R=({r})")
     return "ok " + " # ".join(outs)
 
 
@@ -475,6 +488,12 @@ def norm_dev(d):
     return d.replace(":t", ":i1").replace(":f", ":i0")
 
 
+def same_node_id(tok, enc):
+    """the node id in force for the re-import is the dictionary's (ASSUMPTIONS): the token names it or is `none`"""
+    own = [it[2:] for it in enc.split(";") if it.startswith("n,")]
+    return tok == "none" or (own and own[-1] == tok)
+
+
 def oracle(op, out):
     a = op.split(" ")
     if a[0] == "rev":
@@ -492,8 +511,10 @@ def oracle(op, out):
         if len(outs) != len(steps):
             return f"history of {len(steps)} rounds gave {len(outs)} answers"
         for i, (st, o) in enumerate(zip(steps, outs)):
+            if not same_node_id(st[3], st[4]):
+                continue
             _, od_dump, d, r = split_out("ok X=1 " + o)
-            w = compare_round(od_dump, d, r, st[0] == "dcf")
+            w = compare_round(od_dump, d, r, st[0] == "dcf", file_nid("ok X=1 " + o))
             if w:
                 earlier = [j + 1 for j in range(i) if steps[j][1] == "f" and steps[j][:3:2] == st[:3:2]]
                 dest = {"f": f"file {E.unhx(st[2])}.{st[0]}", "s": "text stream", "o": "standard output"}[st[1]]
@@ -502,14 +523,24 @@ def oracle(op, out):
         return None
     if a[0] not in ("rt", "rti") or not out.startswith("ok X="):
         return None
+    if a[0] == "rt" and not same_node_id(a[3], a[4]):
+        return None
     dcf = a[1] == "dcf"
     x, o, d, r = split_out(out)
     if x != "1":
         return "the exported document depends on the destination (file name / stream / stdout)"
-    return compare_round(o, d, r, dcf)
+    return compare_round(o, d, r, dcf, file_nid(out))
 
 
-def compare_round(o, d, r, dcf):
+FILE_NID = re.compile(r"^ok X=. I=(\S+) O=\(")
+
+
+def file_nid(out):
+    m = FILE_NID.match(out)
+    return m.group(1) if m else None
+
+
+def compare_round(o, d, r, dcf, inid=None):
     """one export/import round: the dump of the exported dictionary, the document, the dump of the re-imported one"""
     if d is None:
         return "export raised an exception"
@@ -531,8 +562,15 @@ def compare_round(o, d, r, dcf):
                 return f"device information: {E.unesc(k)} {da[k]} became {db.get(k)}"
         return f"device information {od['D']} became {od2['D']}"
     if dcf:
-        if od["N"] != od2["N"]:
+        # judged for "no node id" and for every valid node id 1..127; 0 (falsy: not written) and ids beyond 127 are
+        # outside the property's domain (generated, compared with the model only)
+        valid = od["N"] != "~" and 1 <= int(od["N"]) <= 127
+        if (valid or od["N"] == "~") and od["N"] != od2["N"]:
             return f"node id {od['N']} became {od2['N']}"
+        # the document itself carries every valid node id: importing it without naming one gives it back
+        if valid and inid is not None and inid != od["N"]:
+            return (f"node id {od['N']} became {'~' if inid == '~' else inid} (DCF imported without an explicit "
+                    f"node id)")
         if od["B"] != od2["B"]:
             return f"bit rate {od['B']} became {od2['B']}"
     fields = CMP_FIELDS + (["val"] if dcf else [])
@@ -608,7 +646,8 @@ def shrink_candidates(op):
                 yield " ".join(["hist", str(k - 1)] + [t for st in rest for t in st])
         for i, st in enumerate(steps):           # a smaller dictionary in one round
             for cand in shrink_candidates(" ".join(["rt", st[0], st[1], st[3], st[4]])):
-                new = st[:4] + [cand.split(" ")[4]]
+                c = cand.split(" ")
+                new = st[:3] + [c[3], c[4]]
                 yield " ".join(["hist", str(k)] + [t for x in steps[:i] + [new] + steps[i + 1:] for t in x])
         return
     if a[0] != "rt" or a[4] == "-":
@@ -632,7 +671,9 @@ def shrink_candidates(op):
             rest = items[:i] + items[i + 1:]
         else:
             rest = items[:i] + items[i + 1:]
-        yield " ".join(a[:4] + [";".join(rest) if rest else "-"])
+        # (a dictionary without node id is re-imported without one: the node id in force stays the dictionary's)
+        head = a[:3] + ["none"] if it.startswith("n,") else a[:4]
+        yield " ".join(head + [";".join(rest) if rest else "-"])
     # blank optional fields of variables
     for i, it in enumerate(items):
         if it[0] in "VM":
@@ -695,7 +736,9 @@ def rand_od14(rng, size=None, types=None):
     size = rng.choice([0, 1, 2, 4, 6, 10]) if size is None else size
     spec = {}
     if rng.random() < 0.6:
-        spec["nodeid"] = rng.choice([1, 2, 16, 127, rng.randint(1, 127)])
+        # both ends of the valid range 1..127; rarely what lies outside (0, 128, 255: nothing is claimed there)
+        spec["nodeid"] = (rng.choice([1, 2, 126, 127, 127, 16, rng.randint(1, 127)]) if rng.random() < 0.93
+                          else rng.choice([0, 128, 255]))
     if rng.random() < 0.6:
         spec["bitrate"] = rng.choice(E.RATES) * 1000
     if rng.random() < 0.6:
@@ -777,7 +820,7 @@ def rand_history14(rng):
     return history_op(steps)
 
 
-def fixed_od14(default, value, nodeid, extra, ncomments):
+def fixed_od14(default, value, nodeid, extra, ncomments, bitrate=500000):
     objs = [{"kind": "var", "var": {"name": "Device type", "index": 0x1000, "sub": 0, "dt": E.T_U32, "acc": "ro",
                                     "def": ("i", 0x191)}},
             {"kind": "var", "var": {"name": "Set point", "index": 0x2000, "sub": 0, "dt": E.T_I16, "acc": "rw",
@@ -785,7 +828,7 @@ def fixed_od14(default, value, nodeid, extra, ncomments):
     if extra:
         objs.append({"kind": "var", "var": {"name": "Added later", "index": 0x2001, "sub": 0, "dt": E.T_U16,
                                             "acc": "ro", "def": ("i", 77), "val": ("i", 78)}})
-    return {"nodeid": nodeid, "bitrate": 500000, "bauds": [], "dev": [], "objs": objs,
+    return {"nodeid": nodeid, "bitrate": bitrate, "bauds": [], "dev": [], "objs": objs,
             "comments": "\n".join(f"comment line {i + 1} of {ncomments}" for i in range(ncomments))}
 
 
@@ -857,6 +900,9 @@ CORPUS = [
     # comment blocks of 9, 10, 12 and 30 lines
     *[f"rt {dt} {dest} 9 {enc_od(fixed_od14(-5, 100, 9, False, n))}"
       for n, dt, dest in ((9, "eds", "s"), (10, "eds", "f"), (12, "dcf", "o"), (30, "dcf", "f"))],
+    # node ids at both ends of the valid range, with and without a bit rate beside them
+    *[f"rt dcf {dest} {n} {enc_od(fixed_od14(3, 4, n, False, 1, br))}"
+      for n, dest, br in ((1, "s", None), (126, "f", 250000), (127, "o", 250000), (127, "s", None))],
     # a configuration file that is rewritten and re-read; a stream round in between
     history_op([("dcf", "f", "device", fixed_od14(-5, 100, 3, False, 1)),
                 ("dcf", "f", "device", fixed_od14(1234, -100, 4, True, 2)),
@@ -876,7 +922,8 @@ LEVEL_TEXT = ("Lean 4 theorems over the exported document, for every dictionary 
               "location, factor, unit, description; parameter values for DCF) plus the dummy entries; bit rate, node id, "
               "comments, device attributes and allowed bit rates are read back; the export returns (no two sections of "
               "the same name); whole-dictionary export_import; export_import_history (several rounds on the same "
-              "file names, other names and streams: every round returns its own dictionary); model tied to the code "
+              "file names, other names and streams: every round returns its own dictionary); export_import_nodeid (a "
+              "DCF imported without an explicit node id gives the exported node id, 127 included); model tied to the code "
               "by generated tables and a "
               "differential run comparing the exported document and the re-imported dictionary")
 LEVEL_NOTE = ("trusted: Lean kernel + propext/Classical.choice/Quot.sound; configparser writing/reading, float printing, the "
